@@ -313,8 +313,24 @@ class RSocketBase(RSocket, RSocketInternal):
 
     async def _on_connection_closed(self):
         self.stop_all_streams()
+        self._fail_unsent_frames()
         await self._handler.on_close(self)
         await self._stop_tasks()
+
+    def _fail_unsent_frames(self):
+        """Frames still waiting to be written (or waiting for a lease) will never be sent on this connection:
+        fail the awaitables handed out for them (fire-and-forget, metadata-push)."""
+        for queue in (self._send_queue, self._request_queue):
+            while not queue.empty():
+                self._fail_sent_future(queue.get_nowait())
+                queue.task_done()
+
+    @staticmethod
+    def _fail_sent_future(frame: Frame):
+        sent_future = frame.sent_future
+
+        if sent_future is not None and not sent_future.done():
+            sent_future.set_exception(RSocketTransportError('Connection closed before the frame was sent'))
 
     @abc.abstractmethod
     def is_server_alive(self) -> bool:
@@ -430,7 +446,11 @@ class RSocketBase(RSocket, RSocketInternal):
                 self._before_sender()
                 while self.is_server_alive():
                     async with self._get_next_frame_to_send(transport) as frame:
-                        await transport.send_frame(frame)
+                        try:
+                            await transport.send_frame(frame)
+                        except BaseException:
+                            self._fail_sent_future(frame)
+                            raise
                         log_frame(frame, self._log_identifier(), 'Sent')
 
                         if frame.sent_future is not None:
